@@ -79,6 +79,24 @@ def run_replay(binary, sd, infile, tag, seed=None, bi0=0, timeout=1500):
     return json.load(open(out))
 
 
+def key_comparison_coverage(*paths):
+    """How many replayed Reads carry a comparison (<>, <, >) on the primary-key column for which TLC's answer holds two or
+    more records - alone, and together with a second non-nil filter.  Counted from the behaviour files (coverage only)."""
+    n = {"alone": 0, "with second filter": 0}
+    for path in paths:
+        with open(path) as f:
+            for line in f:
+                o = json.loads(line)
+                calls = [o["call"]] if isinstance(o, dict) else [s["call"] for s in o]
+                for c in calls:
+                    if c["act"] != "Read" or len(c["out"]) < 2:
+                        continue
+                    real = [x for x in c["fs"] if x["col"] != "-"]
+                    if any(x["col"] == "k" and x["op"] != "eq" for x in real):
+                        n["alone" if len(real) == 1 else "with second filter"] += 1
+    return n
+
+
 def nlines(path):
     with open(path) as f:
         return sum(1 for _ in f)
@@ -171,6 +189,11 @@ def run():
         missing = [k for k in need if not acts.get(k)]
         if missing:
             raise vf.NoVerdict("vacuity guard: never executed on the real code: %s" % missing)
+
+        kc = key_comparison_coverage(trans, walks)
+        chk.cov["key_comparison_reads_matching_2plus"] = kc
+        if not kc["alone"] or not kc["with second filter"]:
+            raise vf.NoVerdict("vacuity guard: no replayed Read compares the key column (<>,<,>) with two or more matching records: %s" % kc)
 
         # 5. binding self-test: perturb one expected value in behaviours the real code agreed with; each must be rejected
         selftest(chk, sd, binary, walks, set(res_w["extra"]["bad_behaviours"]))
